@@ -27,7 +27,7 @@ RULE = (
     "with random non-unit scale. distinct = (subsystem kind, axis, op-kind set, max forward turns (cap 4), max "
     "backward turns (cap 4), boundary hit, reset quadrant set); non-trivial = at least one completed quadrant change"
 )
-RULE += RULE_J
+RULE += RULE_J + " A third of the histories query with arbitrary, also decreasing, time stamps."
 COMPONENTS = {
     "real": ["cardillo.constraints.Revolute", "cardillo.discrete.RigidBody", "cardillo.System (assembly)"],
     "stub": [],
@@ -117,6 +117,9 @@ def gen(rng, tier, index):
         else:
             ops.append({"op": "reset", "via": str(rng.choice(["joint", "system"]))})
     plan["ops"] = ops
+    # time stamps of the queries: the joint angle is a function of the rotation history, not of the clock - a third of
+    # the histories carry arbitrary (also decreasing) time stamps: reverse playback, rejected steps of adaptive back ends
+    plan["time_stamps"] = "arbitrary" if index % 3 == 2 else "plan"
     plan["angle0_kind"] = str(rng.choice(["float", "float", "np64", "np0d"]))
     plan["scale"] = [float(x) for x in rng.uniform(0.5, 2.0, 2)]
     if plan.get("exact"):
@@ -272,10 +275,15 @@ def execute(plan, out, log):
             )
         return val
 
+    arbitrary_t = plan.get("time_stamps") == "arbitrary"
+    if arbitrary_t:
+        out["probes"]["arbitrary_time_stamps"] += 1
     for k, op in enumerate(plan["ops"]):
         if out["violations"]:
             break
         kinds.add(op["op"])
+        if arbitrary_t and op["op"] != "advance":
+            t = float(((k * 0.6180339887498949) % 1.0) * 6.0 - 1.0)  # low-discrepancy, non-monotone
         if op["op"] == "rotate":
             phi += op["d"]
             r = phi / HALF_PI
